@@ -62,12 +62,15 @@ def decodeUtf16 : List Nat → List (Option Nat)
       some (65536 + (u - 55296) * 1024 + (l - 56320)) :: decodeUtf16 rest'
     else none :: decodeUtf16 (l :: rest')
 
+/-- the per-result test of string.rs:438-447: `Ok(c) if (c as u64) < u64::from(u16::MAX)` -/
+def resultOk : Option Nat → Bool
+  | some v => decide (v < 65535)
+  | none => false
+
 /-- `BmpString::from_utf16be` -/
 def bmpFromUtf16be (b : Bytes) : Option Bytes :=
   if b.length % 2 ≠ 0 then none
-  else if (decodeUtf16 (unitsOfBytes b)).all (fun r => match r with
-      | some v => v < 65535
-      | none => false) then some b
+  else if (decodeUtf16 (unitsOfBytes b)).all resultOk then some b
   else none
 
 /-- `BmpString::try_from(&str)` -/
